@@ -140,6 +140,7 @@ def run(ctx):
     ctx.correspondence("Model.Reverse.reverse_path (once, twice) vs taskgen.reverse_path", len(cases), mism)
     schedule_level(ctx)
     host_and_history_cases(ctx)
+    keyword_mix_cases(ctx)
     ctx.explanation = ("8 theorems for ALL paths (any segment lengths, all 8 switch classes): involution, waypoint order, switch flipping, "
                        "position-wise inversion, schedule-level involution and mutual reversal for an arbitrary tracer; inv() table reflected "
                        "from the live classes; reverse_path compared on generated and traced paths; schedule level on three Gen routes")
@@ -342,6 +343,55 @@ def host_and_history_cases(ctx):
             else:
                 ctx.nt(("host-history", label, dec))
     ctx.count("host-built device functions / one reverse statement with several operands x 4 routes", n)
+
+
+def keyword_mix_cases(ctx):
+    """f and reverse(f) called with the SAME values written in different forms - all positional, one positional and two keywords in either
+    order, all keywords - and a forward / reversed device function chosen by a helper kernel with a run-time flag: every play is the
+    natively traced path of those values, or its exact reversal"""
+    S = tweezer_prog.harness_spec()
+    ksrc = ("@tweezer\ndef k3(x: float, dx: float, dy: float):\n    g = grid.from_positions([x, x + 2.0], [0.0])\n    action.set_loc(g)\n    action.turn_on([0, 1], action.ALL)\n"
+            "    action.move(grid.shift(g, dx, 0.0))\n    action.move(grid.shift(g, dx, dy))\n    action.turn_off([1], action.ALL)\n")
+    k3 = kernels.define(ksrc)["k3"]
+    gt = tc.PosTable()
+    fwd = tc.ref_trace(tc.run_native(ksrc, "k3", (1.0, 0.5, 3.0), S)[1])
+    f_txt, r_txt = tc.path_text(fwd, gt), tc.path_text(_rev_abs(fwd), gt)
+    chooser = ("@move\ndef choose(task: schedule.DeviceFunction[[float, float, float]], back: bool):\n    chosen = task\n    if back:\n        chosen = schedule.reverse(task)\n    return chosen\n\n")
+    progs = {
+        "one positional argument and two keywords": ("def main(x: float, dx: float, dy: float, back: bool):\n    f = schedule.device_fn(k3, [0, 1], [0])\n    r = schedule.reverse(f)\n    f(x, dx, dy)\n"
+                                                     "    r(x, dx=dx, dy=dy)\n    r(x, dy=dy, dx=dx)\n    f(x, dy=dy, dx=dx)\n    r(dy=dy, x=x, dx=dx)\n    f(x, dx, dy=dy)\n", "frrfrf"),
+    }
+    try:
+        cns = kernels.define(chooser)
+        progs["forward or reversed, chosen by a helper kernel"] = (
+            "def main(x: float, dx: float, dy: float, back: bool):\n    f = schedule.device_fn(k3, [0, 1], [0])\n    choose(f, back)(x, dx, dy)\n    choose(f, False)(x, dx, dy)\n"
+            "    choose(f, True)(x, dx, dy)\n    choose(schedule.reverse(f), back)(x, dx, dy)\n", "rfrf")
+    except Exception as e:
+        cns = {}
+        ctx.hist("keyword-mix", f"the chooser helper cannot be defined: {type(e).__name__}")
+    n = 0
+    for label, (body, want) in progs.items():
+        for dec, plain in (("", False), ("(fold=False)", False), ("(arch_spec=S)", True), ("(arch_spec=S, fold=False)", True)):
+            src = "@move" + dec + "\n" + body
+            rep = {"kind": "schedule", "kernel": "keyword mix", "move": src, "route": dec or "default", "case": label, "keyword_mix": True}
+            ctx.evaluations += 1
+            n += 1
+            try:
+                m = kernels.define(src, S=S, k3=k3, **cns)["main"]
+                st, evs, extra = events.run_events(m, (1.0, 0.5, 3.0, True), S, plain=plain)
+            except Exception as e:
+                st, evs, extra = "err", [], f"{type(e).__name__}: {e}"
+            if st == "ok":
+                g2 = tc.PosTable()
+                got = "".join("f" if tc.path_text(tc.abstract_path(e[1].path), g2) == f_txt else "r" if tc.path_text(tc.abstract_path(e[1].path), g2) == r_txt else "?" for e in evs if e[0] == "play")
+            else:
+                got = "ERR " + str(extra)[:80]
+            if got != want:
+                ctx.fail({"kind": "schedule-level", "route": dec or "default", "problem": "forward / reversed plays differ from the source", "case": label}, rep,
+                         f"@move{dec}, {label}: the plays are {got} (f = the traced path of these values, r = its reversal, ? = neither) but the source says {want}")
+            else:
+                ctx.nt(("keyword-mix", label, dec))
+    ctx.count("f / reverse(f) with one value set written in different call forms, and chosen by a helper kernel x 4 routes", n)
 
 
 def _rev_abs(ap):
